@@ -828,7 +828,7 @@ impl<K> AccessTime for DeqNode<KeyDate<K>> {
         None
     }
 //@@ END
-//@@ FN file=src/common/concurrent.rs owner=AccessTime for DeqNode<KeyDate<K>> name=set_last_accessed tags=C08
+//@@ FN file=src/common/concurrent.rs owner=AccessTime for DeqNode<KeyDate<K>> name=set_last_accessed tags=C08 never_called=1
     fn set_last_accessed(&self, _timestamp: Instant) {
         unreachable!();
     }
@@ -864,7 +864,7 @@ impl<K> AccessTime for DeqNode<KeyHashDate<K>> {
         None
     }
 //@@ END
-//@@ FN file=src/common/concurrent.rs owner=AccessTime for DeqNode<KeyHashDate<K>> name=set_last_modified tags=C08
+//@@ FN file=src/common/concurrent.rs owner=AccessTime for DeqNode<KeyHashDate<K>> name=set_last_modified tags=C08 never_called=1
     fn set_last_modified(&self, _timestamp: Instant) {
         unreachable!();
     }
